@@ -10,7 +10,9 @@ INVARIANTS = ["BinContents", "SquaredErrors", "Accounting", "GapCountsNowhere", 
 def run(tier, seed):
     ctx = CheckContext("C01", tier, seed)
     ctx.invariants = INVARIANTS
-    cfg = "MC_Hist1D_quick" if tier == "quick" else "MC_Hist1D_thorough"
+    if tier == "thorough":
+        ctx.model_check("MC_Hist1D_thorough", dump=False)      # deep exhaustive run of the invariants (too large to replay)
+    cfg = "MC_Hist1D_quick" if tier == "quick" else "MC_Hist1D_mid"
     _res, g = ctx.model_check(cfg, required_actions=["NewEmpty", "Construct", "Fill", "FillN", "FindBin"])
     # C01 is about construction: compare the Construct / NewEmpty transitions under every embedding
     combos = [("dyadic", "int", 0), ("decimal", "half", 1), ("ulp", "int", 2), ("huge", "npint", 3),
